@@ -2,8 +2,9 @@
 # runs /repo's test suite (guard off) and compares with /root/.vp/BASELINE.json stable_pass
 export GOFLAGS=-mod=mod GOPROXY=off GOSUMDB=off
 R=${BASE_REPO:-/repo}
+trap 'rm -f /tmp/kv-baseline.$$.json /tmp/kv-baseline.$$.err /tmp/kv-go.mod.bak.$$ /tmp/kv-go.sum.bak.$$' EXIT
 cp $R/go.mod /tmp/kv-go.mod.bak.$$; cp $R/go.sum /tmp/kv-go.sum.bak.$$
-(cd $R && go test -mod=mod -json -vet=off -count=1 -timeout 25m ./... > /tmp/kv-baseline.$$.json 2>/tmp/kv-baseline.err)
+(cd $R && go test -mod=mod -json -vet=off -count=1 -timeout 25m ./... > /tmp/kv-baseline.$$.json 2>/tmp/kv-baseline.$$.err)
 cp /tmp/kv-go.mod.bak.$$ $R/go.mod; cp /tmp/kv-go.sum.bak.$$ $R/go.sum; rm -f /tmp/kv-go.mod.bak.$$ /tmp/kv-go.sum.bak.$$
 export KVB=/tmp/kv-baseline.$$.json
 python3 - <<'PY'
